@@ -297,6 +297,10 @@ pub fn nondet_selftest(seed: u64, n_cases: u64) -> i32 {
         let mut rng = Rng::new(simcore::rng::derive(seed, "c19-nondet", idx));
         let mut c = h.gen(&mut rng, Tier::Quick);
         c.graph.ktype = "Kmer6".into();
+        if !c.graph.direct_nodes.is_empty() {
+            // regenerate the free-form node set for the k-mer type used here
+            c.graph.direct_nodes = simcore::spec::gen_direct_nodes(&mut rng, &c.graph.reads, 6, 30);
+        }
         let base = Arc::new(build_base::<Kmer6>(&c.graph));
         let sh = Arc::new(Mutex::new(Shared::default()));
         rayon::set_max_workers(c.max_workers);
